@@ -67,7 +67,7 @@ impl<K: Clone + PartialEq + Eq + Hash + std::fmt::Debug + std::cmp::PartialOrd, 
 
         let wlen = w.len();
 
-        while r.len() + wlen > self.limit {
+        while r.len() + wlen > self.limit + vec.len() {
             let res = self.__pop_lru(&mut r);
 
             if let Some(val) = res {
@@ -77,6 +77,12 @@ impl<K: Clone + PartialEq + Eq + Hash + std::fmt::Debug + std::cmp::PartialOrd, 
                     val.1.is_dirty()
                 );
                 if val.1.is_dirty() {
+                    // The caller has to write a dirty victim back first.
+                    // Keep it in the cache until then: a lookup that missed
+                    // it would load the stale copy from disk while the
+                    // up-to-date one is still on its way there.  Once clean
+                    // it is evicted by a later commit.
+                    r.insert(val.0.clone(), Arc::clone(&val.1));
                     vec.push(val);
                 }
             } else {
@@ -164,10 +170,13 @@ impl<K: Clone + PartialEq + Eq + Hash + std::fmt::Debug + std::cmp::PartialOrd, 
         &self,
         map: &mut std::sync::RwLockWriteGuard<HashMap<K, AsyncLruCacheEntry<V>>>,
     ) -> Option<(K, AsyncLruCacheEntry<V>)> {
+        // Entries that are in use can't be dropped: their user may still
+        // update them, and an update of an entry that is no longer in the
+        // cache would never be flushed.  This also skips the dirty victims
+        // already picked in this round, which stay in the map.
         let (_, mut key_out) =
             map.iter()
                 .fold((usize::MAX, None), |(minl, key_out), (key, entry)| {
-                    // Cannot drop entries that are in use
                     if Arc::strong_count(entry) > 1 {
                         (minl, key_out)
                     } else {
@@ -179,21 +188,6 @@ impl<K: Clone + PartialEq + Eq + Hash + std::fmt::Debug + std::cmp::PartialOrd, 
                         }
                     }
                 });
-
-        if key_out.is_none() {
-            // it is safe to remove cache entry with active user, since the
-            // user holds the reference
-            (_, key_out) = map
-                .iter()
-                .fold((usize::MAX, None), |(min, key_out), (key, entry)| {
-                    let l = entry.lru.load(Ordering::Relaxed);
-                    if l < min {
-                        (l, Some(key.clone()))
-                    } else {
-                        (min, key_out)
-                    }
-                });
-        }
 
         if key_out.is_none() {
             None
